@@ -17,6 +17,10 @@ P = {
          'Theorems for every history: a traced call returns/raises exactly what the wrapped function does; a returning call appends exactly one sample under its name and touches no other, a raising call none; the recorded samples are those of the abstract specification (calls that returned since the last clear); get_trace reports sum or (sum, count) of the last min(max_history, length) samples for max_history None or >= 1 and exactly the recorded names; clear empties. Tie: random histories (1-4 traced functions, shared __name__, identity-checked return objects and exceptions, exact argument pass-through, all (average, max_history) queries, clears) compared exactly with the extracted model and with an independent recomputation; sync=True checked under simdist. max_history=0 is the known finding D11.',
          'Coq kernel; extraction + driver; scripted clock injected by attribute assignment on kfac.tracing.time; simdist. Closed under the global context.',
          'DESIGN.md §4 C20'),
+ 'C19': (True, 'Coq proof over exact rationals (per-step specification, fold law over arbitrary histories, constructor refusal, exp_decay range/monotonicity/min formula) + correspondence of LambdaParamScheduler with the extracted model and of exp_decay_factor_averaging with a PrimFloat model',
+         'Theorems for all subsets of scheduled parameters, all factor functions, all histories of scheduler steps (explicit or implicit) interleaved with preconditioner steps: each scheduled constant parameter is the left fold of old * f(step used) (truncated toward zero for the two intervals) of its own function only, unscheduled/callable parameters and the step count are untouched, construction is refused iff a scheduled parameter is callable; over Q: exp_decay = min(1 - 1/max(k,1), cap), within [0, cap], non-decreasing, 0 at steps 0 and 1, error for cap <= 0. Tie: random subsets with dyadic step-revealing factor tables, histories with real preconditioner.step() calls, all six properties read back after every call and compared exactly; exp_decay compared bit-for-bit with the binary64 model evaluated inside Coq.',
+         'Coq kernel; PrimFloat primitives (float reading of exp_decay only); extraction + driver; IEEE-rounded monotonicity is checked on a sampled range, not proved.',
+         'DESIGN.md §4 C19'),
  'C14': (True, 'Coq proof (induction over rows; any element type) + exhaustive-n correspondence of extracted model with get_triu/fill_triu + simdist guard runs',
          'Theorems for every n and element type: pack/unpack round trip, NoDup/completeness/length n(n+1)/2 of the index list, symmetry of any unpacked matrix, symmetric==dense communication for any elementwise combine, rejection of non-square shapes with no communication. Tie: extracted triu_idx / fill_index_matrix equal torch behaviour for every n<=128 (quick; 512 thorough), bit-exact round trips in 4 dtypes x 3 layouts, guard + element counts of the three communication functions under simdist.',
          'Coq kernel; extraction (ExtrOcamlBasic) + ocaml/driver.ml; simdist; torch.triu_indices/advanced indexing compared not verified. Closed under the global context.',
